@@ -160,6 +160,32 @@ def harness(ctx, M, id_w, seq_w, grows=False):
         ctx.prop("unacked_done", rig.idle)
 
 
+def h_large_file_flag(ctx):
+    """file sizes around 2**32: the large-file flag is set exactly when the size needs 64 bits, in the Metadata
+    PDU and in the File Data PDUs, and the Metadata PDU serialises"""
+    w = World(ctx)
+    ids = Ids(2, 2)
+    mode = ctx.pick("mode", [ACK, UNACK])
+    S = ctx.int("S", 2**32 - 2, 2**32 + 2)
+    rig = SrcRig(w, ids, mode=mode, closure=False, seg_len=1024, max_packet_len=2048)
+    rig.fs.add_source_file("/src/file.bin", S)
+    o = rig.put()
+    ctx.prop("put_accepted", o.exc is None and o.ret is True, lambda: {"sig": rigs.exc_name(o.exc)})
+    o1, o2 = rig.sm(), rig.sm()
+    ctx.prop("no_exception", o1.exc is None and o2.exc is None,
+             lambda: {"sig": rigs.exc_sig(o1.exc or o2.exc)})
+    ctx.prop("metadata_first", o1.kinds() == ["MD"] and o2.kinds() == ["FD"], lambda: {"sig": str(o1.kinds() + o2.kinds())})
+    md, fd = o1.pdus[0], o2.pdus[0]
+    need_large = bool(S > 2**32 - 1)
+    want = LargeFileFlag.LARGE if need_large else LargeFileFlag.NORMAL
+    ctx.covered("large" if need_large else "normal")
+    ctx.prop("large_file_flag_iff_needed", md.file_flag == want and fd.file_flag == want,
+             lambda: {"sig": f"file flag {md.file_flag!r}/{fd.file_flag!r} for a file that "
+                             f"{'needs' if need_large else 'does not need'} 64-bit sizes"})
+    ctx.prop("md_file_size", md.file_size == S)
+    ctx.prop("md_parsable", parsable(w, md), lambda: {"sig": "Metadata PDU of a file around 2**32 bytes does not serialise"})
+
+
 def h_ack_of_finished(ctx, id_w, seq_w):
     """the ACK(Finished) the source emits respects the maximum packet length and the header rules"""
     w = World(ctx)
@@ -214,6 +240,8 @@ def plan(tier):
                           {"M": m, "id_w": iw, "seq_w": sw}, twin_share=0.25,
                           obligations=[f"segments={k}" for k in range(0, m + 1)]))
         if (iw, sw) == (2, 2):
+            specs.append(Spec("src-large-file-flag/sizes-around-2**32", "vf.harness.c07:h_large_file_flag", {},
+                              twin_share=1.0, obligations=["large", "normal"]))
             specs.append(Spec("src-stream/source-file-grows/M=2/w2.2", "vf.harness.c07:harness",
                               {"M": 2, "id_w": 2, "seq_w": 2, "grows": True}, twin_share=0.25,
                               obligations=["source_file_grew"]))
